@@ -474,7 +474,10 @@ def processStore (cfg : Cfg) (st : St) (r : Req) (buf : Buf) : PRes :=
   let key := r.keys.headD []
   let st := { st with cnt := { st.cnt with cmdSet := st.cnt.cmdSet + 1 } }
   let drop : Ledger := (st.led.setSub buf.cap).free buf
-  if !validKeyString key || r.exptime < 0 then replyIf r.noreply { st with led := drop } (.line (ascii "NOT_STORED") [])
+  -- refused without touching the store: an invalid key, a negative revision, the server-reserved flag bit 0x10000
+  -- (since /repo "fix: refuse the server-reserved compression flag from clients")
+  if !validKeyString key || r.exptime < 0 || ((r.flag % 4294967296).toNat / 65536) % 2 == 1 then
+    replyIf r.noreply { st with led := drop } (.line (ascii "NOT_STORED") [])
   else
     let flag := (r.flag % 4294967296).toNat
     let rev : Int := Int32.toInt (Int32.ofInt r.exptime)
